@@ -6,15 +6,20 @@ CFG = dict(
          "H: a real RunClientUpdater fed through the real clientMessageChan (1..7 tags drawn from all real tags incl. no-publish, no-save, "
          "NEWDASTARD and unknown ones; 1..3 values per tag so repeats and unchanged values are frequent; 1..30 ops, thorough up to 120; SENDALL "
          "anywhere), observed by a real ZeroMQ SUB socket on the status port (live messages and SENDALL replies separated by in-band markers); "
-         "in ~20% of the histories the config file the updater saves by itself (2 s after a change) is read back. "
+         "in ~40% of the histories the harness waits for the updater's OWN save points (the 2 s delayed save after the last change; when that is overdue up "
+         "to 7 s, in the thorough tier in some cases 63 s so that the 1-minute periodic save has fired too) and reads the config file back; a quarter of "
+         "the H cases are aimed at the save-debounce window: 2..4 persistent topics get a first value and are saved, then inside ONE window some change "
+         "for good, some change away and back to the value already saved (possibly as the last update of the window), some flip twice or are repeated "
+         "unchanged, interleaved with no-save topics and SENDALLs, then the save points are awaited; the oracle demands the latest value of EVERY "
+         "persistent topic in the file whatever path the code took. "
          "K: real saveState in a child process killed at every step boundary the source contains (and inside the write of the temporary file: "
          "0, 1/4, 1/2, 3/4 of its bytes), after 0..2 complete saves, from directories with empty/old main file, with/without backup, with/without "
          "stale complete or partial temporary file; the directory is then read by the real start-up (cmd/dastard built with -tags verif: "
          "makeFileExist + setupViper). R: typed source configurations (SimPulse, Triangle, Lancero, Abaco, Roach), record lengths, trigger "
          "settings and base path saved by the real saveState (optionally over a file of an earlier run) and restored by the real start-up "
          "(setupViper, RunRPCServer, PrepareRun), compared field by field. Non-trivial = a SENDALL reply with several topics after repeated "
-         "updates, a read-back of a self-made save, a kill strictly inside the save, a kill inside the write, or a typed round trip; distinct by input line.",
-    nontrivial=["replay-multi-repeat", "saved", "crash-mid", "inwrite", "R"],
+         "updates, a read-back of a self-made save, a save window with a change plus a return-to-saved-value of another topic, a kill strictly inside the save, a kill inside the write, or a typed round trip; distinct by input line.",
+    nontrivial=["replay-multi-repeat", "saved", "window-revert", "window-multi", "crash-mid", "inwrite", "R"],
     jobs=seeds(1, 3),
     trusted_base=["POSIX semantics of rename(2) (atomic replace), link(2), unlink(2) and of a write that a kill can cut at any byte, as transcribed in "
                   "Model/C16.lean (three-file model; durability after power loss / fsync is not modelled: the property is about a process kill)",
@@ -36,7 +41,9 @@ MANIFEST = dict(
          "(i) For ALL histories of status updates (any tags incl. no-publish / no-save / NEWDASTARD / unknown ones, repeats, unchanged values, "
          "SENDALL and save timers anywhere): every SENDALL reply holds exactly one message per topic ever published, namely its most recent one "
          "(C16_sendall_latest, C16_sendall_exact), and the settings a save hands to the config file hold the latest value of every persistent "
-         "topic (C16_saved_has_latest). (ii) For ALL directory states, contents and kill points (after any number of completed steps, or any "
+         "topic (C16_saved_has_latest); every change of a topic not on the no-save list arms the delayed save and only a save disarms it, so whenever no "
+         "save is pending the saved settings already hold the latest value of every persistent topic, however the changes of one debounce window "
+         "interleave (C16_saved_when_quiet). (ii) For ALL directory states, contents and kill points (after any number of completed steps, or any "
          "number of bytes into the non-atomic write of the temporary file, after any number of earlier complete saves): the file the next start-up "
          "reads existed and is the complete old or the complete new version (C16_crash_safe, C16_crash_safe_history), proved through a general "
          "theorem for every step list of a decidable 'safe shape' (C16_crash_safe_of_shape); an uninterrupted save installs the new content and "
@@ -64,6 +71,7 @@ THEOREMS = [
     ("DastardV.Props.C16", "DastardV.C16.C16_sendall_exact"),
     ("DastardV.Props.C16", "DastardV.C16.C16_sendall_needs_json_text"),
     ("DastardV.Props.C16", "DastardV.C16.C16_saved_has_latest"),
+    ("DastardV.Props.C16", "DastardV.C16.C16_saved_when_quiet"),
     ("DastardV.Props.C16", "DastardV.C16.C16_crash_safe_of_shape"),
     ("DastardV.Props.C16", "DastardV.C16.C16_crash_safe"),
     ("DastardV.Props.C16", "DastardV.C16.C16_crash_safe_history"),
